@@ -42,6 +42,18 @@ impl Command for CommandImpl {
                 CommandResult::Error("Path does not exist.".to_string())
             } else {
                 let target_path = Path::new(&context.arguments[1]);
+
+                // moving a path onto itself would copy it over itself and then delete it
+                let same_path = match (source_path.canonicalize(), target_path.canonicalize()) {
+                    (Ok(source), Ok(target)) => source == target,
+                    _ => false,
+                };
+                if same_path {
+                    return CommandResult::Error(
+                        "Source and target are the same path.".to_string(),
+                    );
+                }
+
                 let source_ends_with_separator = ends_with_separator(&context.arguments[0]);
                 let source_file = source_path.is_file();
                 let target_exists = target_path.exists();
